@@ -184,7 +184,6 @@ func (r *vfRun) expectPark(what, point string) bool {
 	if p != nil {
 		return adopt(p)
 	}
-	r.rep.DriftNote("case %d: the deletion worker did not make the expected call (%s); probing with a sentinel id", r.caseNo, what)
 	r.w.delState().Add(map[string]struct{}{vfSentinel: {}})
 	g := r.w.local.gates
 	var q *vfPark
@@ -195,9 +194,14 @@ func (r *vfRun) expectPark(what, point string) bool {
 	}
 	samePoint := q.Point == point || (point == "del" && q.Point == "mark")
 	if q.Id != vfSentinel && (samePoint || point == "ts") {
+		r.rep.mu.Lock()
+		n, _ := r.rep.Extra["late_worker_calls"].(int)
+		r.rep.Extra["late_worker_calls"] = n + 1
+		r.rep.mu.Unlock()
 		return adopt(q) // the due call, late
 	}
 	// the worker moved on without the due call
+	r.rep.DriftNote("case %d: the deletion worker did not make the call that was due (%s), it went on to %s", r.caseNo, what, q.Point)
 	vfSkips++
 	pre := r.w.observe()
 	r.wk = vfWorkerTrack{}
